@@ -63,7 +63,7 @@ ASSUMPTIONS = [
 
 VERIF = Path(__file__).resolve().parent.parent
 EOFC, EPSC = 0, 1
-RUNAWAY_LIMIT = 4000
+RUNAWAY_LIMIT = 3000
 
 
 class Runaway(Exception):
@@ -519,17 +519,33 @@ def evaluate(ctx, c, replies):
                 ctx.disagree("LrParser.parse(damaged tables)", dict(case, tokens=w, tables=tl2), impl_txt, m)
 
 
-def run_cases(ctx, mods, grammars, n, rng, with_damage=True):
+def run_cases(ctx, mods, grammars, n, rng, with_damage=True, workers=8):
+    """prepare every grammar with the real builder/parser, ask the Lean driver (several driver
+    processes side by side, each gets a slice of the grammars), evaluate"""
     cases = [prepare(ctx, mods, g, n, rng, with_damage) for g in grammars]
-    lines = [rq for c in cases for _, rq in c.reqs]
-    out = ctx.driver("C32", lines) if lines else []
-    k = 0
+    workers = max(1, min(workers, len(cases) // 4 or 1))
+    slices = [cases[i::workers] for i in range(workers)]
+
+    def ask(sl):
+        lines = [rq for c in sl for _, rq in c.reqs]
+        return ctx.driver("C32", lines) if lines else []
+    if workers == 1:
+        outs = [ask(slices[0])]
+    else:
+        from concurrent.futures import ThreadPoolExecutor
+        with ThreadPoolExecutor(workers) as ex:
+            outs = list(ex.map(ask, slices))
+    replies = {}
+    for sl, out in zip(slices, outs):
+        k = 0
+        for c in sl:
+            rep = {}
+            for kind, _ in c.reqs:
+                rep.setdefault(kind, []).append(out[k])
+                k += 1
+            replies[id(c)] = rep
     for c in cases:
-        rep = {}
-        for kind, _ in c.reqs:
-            rep.setdefault(kind, []).append(out[k])
-            k += 1
-        evaluate(ctx, c, rep)
+        evaluate(ctx, c, replies[id(c)])
     return cases
 
 
@@ -562,9 +578,7 @@ def check(ctx):
     mods = ppci_mods()
     n = 6 if ctx.thorough else 5
     gs = grammars_for(ctx)
-    # chunks keep single driver runs (and their memory) small
-    for i in range(0, len(gs), 60):
-        run_cases(ctx, mods, gs[i:i + 60], n, ctx.rng)
+    run_cases(ctx, mods, gs, n, ctx.rng)
     ctx.extra_cov["exhaustive"] = False
     ctx.extra_cov["strings_per_grammar"] = f"all strings over the grammar's terminals of length <= {n}"
     ctx.extra_cov["completeness"] = "validated only (bounded-exhaustive against the verified recogniser), not proved"
